@@ -122,6 +122,12 @@ def main():
              not_applicable=[dict(property_id=p, reason=NA.get(p, NA_REASON)) for p in ALL if p not in CLAIMED])
     json.dump(m, open(os.path.join(HERE, "MANIFEST.json"), "w"), indent=1)
 
-NA = {}
+NA = {
+ "C06": "IoU exactness is shapely's polygon clipping in floating point: no contract within reach decides it; the range/symmetry clauses relative to an assumed area contract were not built in this session (DESIGN.md section 7)",
+ "C07": "decided only as leaf agreements inside C03 (both filters get the frame's transforms), C09 (both frame branches of the APH weight), C10 (ego-relative position through the registry) and C18; the whole-pipeline frame-read audit was not built, so the property is not claimed",
+ "C12": "crop_pointcloud is vectorised numpy with a uint8 winding counter; the lifted per-row executor it needs was not built (DESIGN.md section 7)",
+ "C16": "the loader is glue around nuscenes-devkit and file I/O; pose semantics and table reading are the devkit's, no contract within reach",
+ "C19": "DataFrame-level clauses (MultiIndex xs, concat, bincount) have no contract within reach; get_object_status was not put under contract in this session",
+}
 if __name__ == "__main__":
     main()
